@@ -43,7 +43,128 @@ FNS = [
                    "old(latch_counter)@ == 1 <==> *final(async_callback) is None,"
                    "final(latch_counter)@ >= 1 ==> *final(async_callback) is Some"),
 ]
-UNIT = Unit("uni_latch", FNS, spec=SPEC, lemmas=[Lemma("lemma_latch_counts_down", ["C12"], clauses=["the k-th of c calls sees the counter at 1 iff k == c"])],
+SPAWNERS = ["spawn_executors", "spawn_fallibles_executors", "spawn_futures_executors", "spawn_non_futures_non_fallibles_executors"]
+
+
+def latch_call_sites(repo, log):
+    """C12 call-site obligation, generated from /repo on every run: each Uni::spawn_* arms the latch with exactly MAX_STREAMS (one count per
+    executor it spawns). The argument expression of the real call is spliced verbatim (R15: `UniChannelType::MAX_STREAMS as u32` -> the
+    symbolic `max_streams`) into a function whose postcondition is the obligation."""
+    import os, re
+    from engine import rustlex as lx
+    from engine.common import Undecided, read
+    path = os.path.join(repo, F)
+    if not os.path.exists(path):
+        raise Undecided(f"{F} not found")
+    text = read(path)
+    msk = lx.mask(text)
+    out, lemmas = "", []
+    for name in SPAWNERS:
+        hit = lx.find_fn(text, name, None, msk)
+        if not hit:
+            raise Undecided(f"{F}: fn {name} not found")
+        s0, bo, bc = hit
+        body, bmsk = text[bo:bc], msk[bo:bc]
+        ms = list(re.finditer(r"\blatch_callback_1p\s*\(", bmsk))
+        if len(ms) != 1:
+            raise Undecided(f"{F}::{name}: expected exactly one latch_callback_1p(..) call, found {len(ms)} -- contract needs review")
+        o = ms[0].end() - 1
+        c = lx.match_close(bmsk, o)
+        args = lx.split_args(lx.strip_comments(body[o + 1:c]))
+        if len(args) != 2:
+            raise Undecided(f"{F}::{name}: latch_callback_1p called with {len(args)} arguments")
+        count = re.sub(r"UniChannelType::MAX_STREAMS\s+as\s+u32", "max_streams", args[0])
+        count = re.sub(r"\bSelf::MAX_STREAMS\s+as\s+u32", "max_streams", count)
+        out += (f"/// {F}::{name}: `latch_callback_1p({args[0]}, ..)`\n"
+                f"pub fn latch_site_{name}(max_streams: u32, concurrency_limit: u32, on_close_callback: Callback) -> (r: Latch)\n"
+                f"    ensures r.latch_counter@ == max_streams, r.async_callback is Some,\n{{ latch_new({count}, on_close_callback) }}\n")
+        lemmas.append(Lemma(f"latch_site_{name}", ["C12"], kind="property", clauses=[f"{name}: the latch is armed with MAX_STREAMS (argument: `{args[0]}`)"]))
+        log["R15-call-site"] = log.get("R15-call-site", 0) + 1
+    return out, lemmas
+
+
+UNIT = Unit("uni_latch", FNS, spec=SPEC, generated=latch_call_sites, lemmas=[Lemma("lemma_latch_counts_down", ["C12"], clauses=["the k-th of c calls sees the counter at 1 iff k == c"])] + [Lemma("latch_site_" + n, ["C12"]) for n in SPAWNERS],
             trusted=["Callback::call (the user's FnOnce), tokio::sync::Mutex (exclusive): shims"],
-            assumptions=["the number of executors a Uni spawns equals MAX_STREAMS == the latch count (zip of MAX_STREAMS streams with the executors): read from the code, not verified",
+            assumptions=["the number of executors a Uni spawns equals MAX_STREAMS (zip of MAX_STREAMS streams with the executors): read from the code, not verified; that the latch is ARMED with MAX_STREAMS is the latch_site_* obligations",
                          "A-model residue: concurrent callers are serialised by fetch_sub's atomicity (assumed)"])
+
+# ------------------------------------------------------------------------------------------------------------------------------------
+# closers: Uni::close / Uni::flush / Multi::close / Multi::flush_and_cancel_executor (C06, C12): thin wrappers, but they are where a close
+# can be short-circuited. Obligation: the answer is computed from exactly one graceful end of the channel's streams, with the caller's timeout
+# ------------------------------------------------------------------------------------------------------------------------------------
+SPEC_CLOSE = r"""
+pub enum ChanEv { EndAll(Duration, u32), EndStream(u32, Duration), Flush(Duration, u32) }
+/// the channel seen from Uni / Multi: its graceful-end entry points (decided per channel through streams_manager: C06)
+pub struct Channel { pub calls: Ghost<Seq<ChanEv>> }
+impl Channel {
+    #[verifier::external_body]
+    pub fn gracefully_end_all_streams(&mut self, timeout: Duration) -> (r: u32)
+        ensures final(self).calls@ == old(self).calls@.push(ChanEv::EndAll(timeout, r)),
+    { unimplemented!() }
+    #[verifier::external_body]
+    pub fn gracefully_end_stream(&mut self, stream_id: u32, timeout: Duration) -> (r: bool)
+        ensures final(self).calls@ == old(self).calls@.push(ChanEv::EndStream(stream_id, timeout)),
+    { unimplemented!() }
+    #[verifier::external_body]
+    pub fn flush(&mut self, timeout: Duration) -> (r: u32)
+        ensures final(self).calls@ == old(self).calls@.push(ChanEv::Flush(timeout, r)),
+    { unimplemented!() }
+}
+pub struct Stats { pub v: u8 }
+impl Stats { #[verifier::external_body] pub fn report_scheduled_to_finish(&self) { } }
+pub struct ExecutorInfo { pub executor_stats: Stats, pub stream_id: u32 }
+pub struct ExecName { pub v: u8 }
+pub fn fmt_stub() -> ExecName { ExecName { v: 0 } }
+/// the registry `RwLock<IndexMap<String, ExecutorInfo>>` (lock + map ASSUMED): removal answers what was registered under the name
+pub struct ExecutorInfos { pub registered: Ghost<Option<u32>> }
+impl ExecutorInfos {
+    #[verifier::external_body]
+    pub fn swap_remove(&mut self, name: &ExecName) -> (r: Option<ExecutorInfo>)
+        ensures (r matches Some(info) ==> old(self).registered@ == Some(info.stream_id) && final(self).registered@ is None),
+                r is None ==> old(self).registered@ is None && final(self).registered == old(self).registered,
+    { unimplemented!() }
+    #[verifier::external_body] pub fn read(&self) -> (r: &Self) ensures r == self { self }
+    #[verifier::external_body] pub fn is_empty(&self) -> bool { unimplemented!() }
+    #[verifier::external_body] pub fn len(&self) -> usize { unimplemented!() }
+}
+pub struct Uni { pub channel: Channel, pub finished_executors_count: AtomicU32 }
+pub struct Multi { pub multi_name: ExecName, pub channel: Channel, pub executor_infos: ExecutorInfos }
+"""
+FU = "src/uni/uni.rs"
+FM = "src/multi/multi.rs"
+AWAIT_ANY = Rule("R10-await", r"\.await\b", "", min=1, note=".await dropped (de-asynced)")
+CLOSERS = [
+    FnSpec(FU, "close", impl=r"GenericUni\s+for\s+Uni\s*<[^{]*(?=\{)", out_name="uni_close", props=["C06"],
+           sig="pub fn uni_close(&mut self, timeout: Duration) -> (r: bool)", sig_anchor=r"async fn close\(&self, timeout: Duration\) -> bool",
+           rules=[AWAIT_ANY],
+           ensures="final(self).channel.calls@.len() == old(self).channel.calls@.len() + 1,"
+                   "final(self).channel.calls@.last() matches ChanEv::EndAll(t, left) && t == timeout && (r <==> left == 0),"
+                   "final(self).channel.calls@.drop_last() =~= old(self).channel.calls@"),
+    FnSpec(FU, "flush", impl=r"GenericUni\s+for\s+Uni\s*<[^{]*(?=\{)", out_name="uni_flush", props=["C06"], kind="helper",
+           sig="pub fn uni_flush(&mut self, duration: Duration) -> (r: u32)", sig_anchor=r"async fn flush\(&self, duration: Duration\) -> u32",
+           rules=[AWAIT_ANY],
+           ensures="final(self).channel.calls@ =~= old(self).channel.calls@.push(ChanEv::Flush(duration, r))"),
+    FnSpec(FM, "close", impl=r"impl\s*<[^{]*>\s*Multi\s*<\s*ItemType\s*,\s*MultiChannelType\s*,\s*INSTRUMENTS\s*,\s*DerivedItemType\s*>\s*(?=\{)", out_name="multi_close", props=["C06"],
+           sig="pub fn multi_close(&mut self, timeout: Duration) -> (r: bool)", sig_anchor=r"pub async fn close\(&self, timeout: Duration\) -> bool",
+           rules=[AWAIT_ANY],
+           ensures="final(self).channel.calls@.len() == old(self).channel.calls@.len() + 1,"
+                   "final(self).channel.calls@.last() matches ChanEv::EndAll(t, left) && t == timeout && (r <==> left == 0),"
+                   "final(self).channel.calls@.drop_last() =~= old(self).channel.calls@"),
+    FnSpec(FM, "flush_and_cancel_executor", impl=r"impl\s*<[^{]*>\s*Multi\s*<\s*ItemType\s*,\s*MultiChannelType\s*,\s*INSTRUMENTS\s*,\s*DerivedItemType\s*>\s*(?=\{)", props=["C12", "C06", "C07"],
+           sig="pub fn flush_and_cancel_executor(&mut self, pipeline_name: ExecName, timeout: Duration) -> (r: bool)",
+           sig_anchor=r"pub async fn flush_and_cancel_executor<IntoString: Into<String>> \(&self, pipeline_name: IntoString, timeout: Duration\) -> bool",
+           rules=[ReplaceBlocksNumbered("R9-format", r"format!\(", "fmt_stub()", count=1, note="format!(..) (the executor's registry key) -> opaque name"),
+                  Rule("R10-rwlock-write", r"self\.executor_infos\.write\(\)\.await", "&mut self.executor_infos", count=1, note="RwLock write guard -> &mut (exclusive access ASSUMED)"),
+                  Rule("R10-guard-drop", r"drop\(executor_infos\);", "", min=0),
+                  AWAIT_ANY],
+           ensures="r ==> old(self).executor_infos.registered@ is Some && final(self).executor_infos.registered@ is None"
+                   "  && final(self).channel.calls@ =~= old(self).channel.calls@.push(ChanEv::EndStream(old(self).executor_infos.registered@.unwrap(), timeout)),"
+                   "!r ==> old(self).executor_infos.registered@ is None && final(self).channel.calls == old(self).channel.calls"),
+]
+CLOSERS[0].container = CLOSERS[1].container = "impl Uni"
+CLOSERS[2].container = CLOSERS[3].container = "impl Multi"
+UNIT_CLOSE = Unit("closers", CLOSERS, spec=SPEC_CLOSE,
+                  trusted=["Channel::{gracefully_end_all_streams, gracefully_end_stream, flush}: shims that log the call (each channel forwards them to StreamsManagerBase: unit streams_manager)",
+                           "tokio RwLock / IndexMap of Multi::executor_infos: shim"],
+                  assumptions=["a Multi's registry holds at most the executor being removed (one entry is modelled)"])
+UNITS = [UNIT, UNIT_CLOSE]
